@@ -2,39 +2,45 @@
 import os
 
 _ROOT = os.path.dirname(os.path.dirname(os.path.dirname(os.path.abspath(__file__))))
-_ST = {"side": 0, "cli_repro": 0, "model_repro": 0, "model_oof": 0, "model_mismatch": 0, "n": 0}
-_BASE = ("replay of the repository's recorded jq 1.7.1 behaviour (golden cases with args `-c`, all error probes in caught "
-         "form) through the freshly built `succinctly jq` binary and through the Lean model in its jq-1.7.1 dialect; "
-         "each side compares its own output with the recording embedded in the request")
+_BASE = ("(a) replay of the repository's recorded jq 1.7.1 behaviour (golden cases with args `-c`, all error probes in "
+         "caught form) through the freshly built `succinctly jq` binary and through the Lean model in its jq-1.7.1 dialect, "
+         "each side comparing its own output with the recording embedded in the request; (b) generated core-fragment "
+         "programs x inputs through the CLI (stdout values, stderr message, exit status) against the model as oracle, "
+         "programs using a documented divergence (docs/compliance/jq/limitations.md) filtered out")
 
 
-class _Ans(str):
-    def __eq__(self, other):
-        a, b = str(self), str(other)
-        if a.startswith("CLI-MISMATCH") or a in ("NO-CLI", "PANIC"):
-            return False          # the CLI does not reproduce recorded jq 1.7.1 behaviour
-        # a model mismatch / no verdict on a recorded case is a model gap, counted in the evidence
-        return True
+def _verdict(req, impl, model):
+    op = req.split(" ", 2)[1] if " " in req else ""
+    if op == "case":
+        if impl != "REPRO":
+            return "disagree"          # the CLI does not reproduce recorded jq 1.7.1 behaviour
+        if model.startswith("MODEL-MISMATCH"):
+            return "disagree"          # the oracle itself contradicts the recording: a model bug
+        return "skip" if model.startswith("OUT-OF-FRAGMENT") else "agree"
+    # op == "run": CLI against the model
+    if impl.startswith("DOCUMENTED-DIVERGENCE"):
+        return "skip"
+    if "OUT-OF-FRAGMENT" in model:
+        return "skip"
+    if impl in ("NO-CLI", "PANIC") or impl.startswith("CLI-COMPILE-ERROR") or impl.startswith("CLI-OUTPUT-BEFORE-MARKER"):
+        return "disagree"
+    return "agree" if impl == model else "disagree"
 
-    def __ne__(self, other):
-        return not self.__eq__(other)
 
-    __hash__ = str.__hash__
-
-
-def _canon(req, out):
-    if _ST["side"] == 0:
-        _ST["n"] += 1
-        _ST["cli_repro"] += out == "REPRO"
-    else:
-        _ST["model_repro"] += out == "REPRO"
-        _ST["model_oof"] += out.startswith("OUT-OF-FRAGMENT")
-        _ST["model_mismatch"] += out.startswith("MODEL-MISMATCH")
-        CFG["explanation"] = (_BASE + f"; this run: {_ST['n']} recorded cases, CLI reproduces {_ST['cli_repro']}, model reproduces "
-                              f"{_ST['model_repro']} (model ≙ jq 1.7.1 validation), model without verdict {_ST['model_oof']}, "
-                              f"model differs from the recording {_ST['model_mismatch']}")
-    _ST["side"] = 1 - _ST["side"]
-    return _Ans(out)
+def _counters(triples):
+    cases = [t for t in triples if t[0].split(" ", 2)[1] == "case"]
+    runs = [t for t in triples if t[0].split(" ", 2)[1] == "run"]
+    return {
+        "recorded_cases": len(cases),
+        "recorded_cases_cli_reproduces": sum(1 for t in cases if t[1] == "REPRO"),
+        "recorded_cases_model_reproduces": sum(1 for t in cases if t[2] == "REPRO"),
+        "recorded_cases_model_no_verdict": sum(1 for t in cases if t[2].startswith("OUT-OF-FRAGMENT")),
+        "recorded_cases_model_mismatch": sum(1 for t in cases if t[2].startswith("MODEL-MISMATCH")),
+        "generated_runs": len(runs),
+        "generated_runs_documented_divergence_skipped": sum(1 for t in runs if t[1].startswith("DOCUMENTED-DIVERGENCE")),
+        "generated_runs_model_no_verdict": sum(1 for t in runs if "OUT-OF-FRAGMENT" in t[2] and not t[1].startswith("DOCUMENTED-DIVERGENCE")),
+        "generated_runs_compared": sum(1 for t in runs if "OUT-OF-FRAGMENT" not in t[2] and not t[1].startswith("DOCUMENTED-DIVERGENCE")),
+    }
 
 
 CFG = {
@@ -52,7 +58,8 @@ CFG = {
     "lean_modules": ["SuccinctlyVerif.Props.C23"],
     "lean_files": ["SuccinctlyVerif/Model/Jq.lean", "SuccinctlyVerif/Model/JqParse.lean", "SuccinctlyVerif/Model/JqPrelude.lean"],
     "generated": [],
-    "canon": _canon,
+    "verdict": _verdict,
+    "counters": _counters,
     "nontrivial": lambda req, out: True,
     "rule": "one request per recorded jq 1.7.1 case (golden or error probe) or per-finding case",
     "explanation": _BASE,
